@@ -170,6 +170,11 @@ def run_case(ctx, prop, case):
         return
     except Fail as f:
         fail = f
+    handle_fail(ctx, prop, case, fail)
+
+
+def handle_fail(ctx, prop, case, fail):
+    """triage a failure: returns normally for known findings / dismissed cases, raises Violation otherwise"""
     verdict, info = triage(ctx, prop, case, fail)
     if verdict == "known":
         if ctx.counting:
